@@ -98,6 +98,24 @@ class Ledger(Core.Component):
     __hash__ = None
 
 
+class Inventory(Core.Component):
+    """A component that can be iterated (it yields the items it holds, not components)."""
+
+    def __iter__(self):
+        return iter(('axe', 'rope'))
+
+    def __len__(self):
+        return 2
+
+
+class Shallow(Core.Component):
+    """A user component type with a subtype; an agent may carry one of each (two distinct types)."""
+
+
+class Deep(Shallow):
+    pass
+
+
 # a user's own component type that happens to be called PositionComponent (a plain Component, nothing to do with the worlds)
 NamedLikePosition = type('PositionComponent', (Core.Component,), {'__doc__': 'user type named like the bundled one'})
 
@@ -346,9 +364,12 @@ def scale_case(case):
     if mk is not None:
         m.environment = mk(m)
     env = m.environment
-    types = {'X': X, 'Y': Y, 'P2': P2, 'F': F, 'W': Water, 'S': Stock, 'L': Ledger, 'N': NamedLikePosition}
+    # (the subtype Deep is attached BEFORE its base type Shallow on the agents that carry both)
+    types = {'X': X, 'Y': Y, 'P2': P2, 'F': F, 'W': Water, 'S': Stock, 'L': Ledger, 'N': NamedLikePosition, 'I': Inventory,
+             'D': Deep, 'B': Shallow}
     carries = {'X': lambda i: True, 'Y': lambda i: i % 2, 'P2': lambda i: i % 3 == 0, 'F': lambda i: i % 4 == 1,
-               'W': lambda i: i % 4 == 2, 'S': lambda i: i % 3 == 1, 'L': lambda i: i % 5 == 0, 'N': lambda i: i % 4 == 3}
+               'W': lambda i: i % 4 == 2, 'S': lambda i: i % 3 == 1, 'L': lambda i: i % 5 == 0, 'N': lambda i: i % 4 == 3,
+               'I': lambda i: i % 3 == 1, 'D': lambda i: i % 3 == 2, 'B': lambda i: i % 2 == 0}
     agents, comps = [], {}
     stocks = []
     for i in range(n):
